@@ -255,7 +255,19 @@ its history (checked by replaying both histories with either fix alone).
 | C12-7 / C12-9 | the short length prefixes at their boundary (256 / 65536 bytes); a codec-only message nested in a carrier whose encoding is zero bytes | own test `TestC12LengthPrefixes`; `EmptyMsg` and codec-only messages in interface-typed fields |
 | C17-8 | two incarnations with the same generation and logical clock (the order-insensitivity was only checked on that projection) | commutativity / associativity also on the records (generation, clock, start stamp) |
 | C20-7 | the place of a scheduled message in the receiver's queue | own unit `mailbox` (busy receiver, messages queued before and sent after the firing instant) |
+| C11-7 | a dialler that does not wait for the answer to its handshake (first frame coalesced with the handshake at the acceptor, whose `Handshake.Wait` keeps only the address of what one `Read` returned) | proxy plan `HoldHandshake` (one case in four, 5-60 ms, one fixed case): the dialler's handshake is held back and handed over in one piece with whatever the dialler sent meanwhile; on a conforming tree nothing is sent meanwhile, so it is only a delay (`C11/exactly-once\|lost`) |
+| C14-9 | a frame of exactly 4 MiB (the largest legal one) | C11's near-limit shape now reaches the limit itself (d = 0..7 below it) and reports the loss (`seeded/CROSS.tsv`); C14 got limit-sized undecodable injected frames, but under C14's oracle the changed receiver closes the connection and the sender recovers by reconnecting, which C14 accepts - the loss of a legal frame on a healthy link is C11's clause |
+| C03-9 | the stash of an actor across a restart (the white-box stash clause skipped every restarted actor) | restarted actors that were spawned once and are running at the end: stash length >= stashed-and-never-returned minus dead-lettered (`C03/lost\|stash-dropped\|restarted`); a first version counted a message twice when two instances had stashed it (false alarm at 4 of 4 quick seeds on the unchanged tree, corrected before it was committed: ids are counted once) |
+| C04-11 | the content of a PipeResult forwarded by a PipeTo that raced the completion (only the count was checked in the real-clock unit) | a PipeResult with neither reply nor error is a violation in C04's real-clock unit and in C10's operation 17 |
+| C13-9 | a typed-nil `*actor.Ref` in an `ActorRef` field (the writer guards against it by reflection; `arb` produced nil and valid references only) | the encode unit (`NilPointers`) puts a nil `*actor.Ref` into *exported* reference fields in one draw of six; `arb.Equal` treats it as nil. A first version also filled unexported fields and reported `singletonForwardedMessage.sender` on the unchanged tree: that field is only ever filled from `ctx.Sender()`, an implicit precondition every caller respects - a false alarm of the generator, corrected before it was committed |
+| (own mutation `seeded/selfmade/C10-M1.diff`: the completed-check of `Future.PipeTo` hoisted in front of the lock) | C10 named `Future.PipeTo` in its domain but no goroutine called it; the sequential C04 model cannot see a registration lost between the check and the lock | operation 17: `Ask` + `PipeTo` from a second goroutine racing reply / timeout / `Close`, three collector actors outside the pool of victims, oracle "one PipeResult per piped future, no successful result twice" (`C10/pipe-exactly-once`; the mutation is caught in the first quick shard); shared `Ref` objects are also read (`Equals/GetPath/GetAddress/ToActorRefs`) while others send through them |
 | C03-8 | a lost wake-up inside the mailbox (a window of a few instructions between the counter read and the idle store) | caught by C01, whose unit owns the mailbox's schedule (`lost-wakeup`, `seeded/CROSS.tsv`); C03's free-running units hit the window in some runs only (then the case cannot be left: `bubble-deadlock`) |
+
+Seeded changes of the last round that the checks still miss (listed as **missed** in 9.8; the reason each is hard is stated):
+
+* **C18-8** (a merged-in entry no longer takes the sender's `LastSeen`: a dead node is re-adopted with a fresh timestamp and circulates for ever). The symptom - membership announcements that go on after a node died - is the signature of the known finding KF-C18-9 / KF-C18-7 on the unchanged tree (`...|after-a-node-died`), so the check cannot tell "more of the same" from the known behaviour. Separating them needs a quantitative clause (the dead node is absent from every view during the last part of a long quiet phase) and a study of how long the known resurrection lasts on the unchanged tree.
+* **C18-9** (token-bucket refill rounded down while the refill instant advances: a node that asks more often than once per 1/rate never gossips again). The generator sets a rate limit only in the regime without failure detection (regime S, 1-3 messages per second, where interval x rate >= 1), so the refill never rounds to zero and a silent node cannot be removed. Catching it needs rate limits in the regime with failure detection, with rates chosen so that the unchanged tree never starves a peer of heartbeats - a soundness question that was not settled.
+
 
 ### 9.5 Known findings (genuine, not repaired) and why they are not small
 
